@@ -273,8 +273,14 @@ def format_error_shape(ck, ctx, rule="diagnostic"):
     pushes = [(bb_, t_) for bb_, t_ in b.calls() if callee_of(t_).endswith("String::push_str")]
     for bb_, t_ in pushes:
         a_ = strip(R.arg(bb_, 1))
-        if any(c[1].endswith("fmt::format") or c[1].endswith("format::format_inner") or "format" in c[1] for c in calls_in(a_)) and any(y[0] == "bin" and y[1] == "Add" and y[3] == ("const", 1) for y in walk(a_)) and any(c[1].endswith("Path::display") for c in calls_in(a_)):
-            pre_ok = all(cfg.dominates(bb_, r_) for r_ in cfg.returns())
+        # the pushed text *is* the formatted prefix (not something computed from it, like its length)
+        while a_[0] == "call" and a_[1].endswith("hint::must_use") and a_[2]:
+            a_ = strip(a_[2][0])
+        if a_[0] == "call" and "format" in a_[1] and any(c[1].endswith("Path::display") for c in calls_in(a_)):
+            # its line number argument is <enumerate index> + 1, nothing else
+            adds = [y for y in walk(a_) if y[0] == "bin" and y[1] in ("Add", "Sub", "Mul")]
+            line_ok = len(adds) == 1 and adds[0][1] == "Add" and adds[0][3] == ("const", 1) and any(c[1].endswith("Iterator>::next") or c[1].endswith("Enumerate<I> as std::iter::Iterator>::next") for c in calls_in(adds[0][2]))
+            pre_ok = line_ok and all(cfg.dominates(bb_, r_) for r_ in cfg.returns())
     ck.ob(rule, "names-file-and-line", pre_ok, "the `<file>:<line>: ` prefix (line = 0-based index + 1, file = the path argument's display()) is appended on every path to the return", span=b.loc, fn=b.nname)
     strs = Q.body_strings(F, b)
     ck.ob(rule, "texts", any("parse error: " in s for s in strs), "the message starts with `parse error: `", span=b.loc, fn=b.nname)
